@@ -109,3 +109,42 @@ Example c04_fixed_on_witness :
   honest_w3c cfg_fixed pcfg_fixed z_case = true /\ flow_w3c cfg_fixed pcfg_fixed z_case = Some Accept
   /\ honest_legacy cfg_fixed z_case = true /\ flow_legacy cfg_fixed pcfg_fixed z_case = Some Accept.
 Proof. repeat split; vm_compute; reflexivity. Qed.
+
+(* the behaviour before fix commit f302f8d (W3C search stops at the first credential that meets the
+   conditions, even when it lacks the non-revocation proof they call for): a revocable credential
+   shown with a timestamp but for referents without interval, placed before a non-revocable one
+   that serves the same attribute name under an interval, makes the honest flow fail *)
+Definition cfg_no_search : vcfg :=
+  {| f_check_preds := true; f_unrev_in_schema := true; f_unrev_intervals := true;
+     f_gate_on_creddef := true; f_require_nrp := true; f_w3c_strict_subject := true;
+     f_common_link := true; f_bind_schema := true; f_w3c_norm_keys := true; f_marker := true;
+     f_no_index_panic := true; f_no_unwrap_panic := true; f_pred_range := true;
+     f_w3c_pred_cv := true; f_group_unrevealed := true; f_group_keys := true; f_w3c_nrp_search := false |}.
+Definition s_srcr := {| src_key := 1; src_attrs := ["name"; "age"]; src_values := [("name", encode "Alex"); ("age", "28")];
+                        src_cred_link := 7; src_used_link := 0; src_pos := 0; src_altered := false |}.
+Definition s_cr := {| hc_schema := "schema:one"; hc_creddef := "creddef:rev"; hc_revreg := Some "reg:1"; hc_issuer := "issuer:one";
+                      hc_values := [("name", ("Alex", encode "Alex")); ("age", ("28", "28"))];
+                      hc_subject := [("name", VStr "Alex"); ("age", VNum 28)]; hc_src := s_srcr |}.
+Definition s_src2 := {| src_key := 2; src_attrs := ["name"; "age"]; src_values := [("name", encode "Alex"); ("age", "28")];
+                        src_cred_link := 7; src_used_link := 0; src_pos := 0; src_altered := false |}.
+Definition s_c2 := {| hc_schema := "schema:one"; hc_creddef := "creddef:two"; hc_revreg := None; hc_issuer := "issuer:two";
+                      hc_values := [("name", ("Alex", encode "Alex")); ("age", ("28", "28"))];
+                      hc_subject := [("name", VStr "Alex"); ("age", VNum 28)]; hc_src := s_src2 |}.
+Definition s_cx := {| cx_schemas := [("schema:one", {| sc_name := "s"; sc_version := "1.0"; sc_issuer := "issuer:one"; sc_attrs := ["name"; "age"] |})];
+                      cx_creddefs := [("creddef:rev", {| cd_schema_id := "schema:one"; cd_issuer := "issuer:one"; cd_key := 1; cd_revkey := Some 1%N |});
+                                     ("creddef:two", {| cd_schema_id := "schema:one"; cd_issuer := "issuer:two"; cd_key := 2; cd_revkey := None |})];
+                      cx_regdefs := Some [("reg:1", 1%N)]; cx_lists := Some [(Some "reg:1", Some 100%Z, Some 0%N)]; cx_override := None |}.
+Definition s_req := {| rq_nonce := 5;
+                       rq_attrs := [("a1", {| ai_name := Some "age"; ai_names := None; ai_restr := None; ai_nr := None |});
+                                    ("a2", {| ai_name := Some "age"; ai_names := None; ai_restr := None; ai_nr := Some {| ifrom := None; ito := None |} |})];
+                       rq_preds := []; rq_nr := None |}.
+Definition s_case := {| pc_req := s_req; pc_cx := s_cx; pc_link := 7;
+                        pc_sel := [{| pr_cred := s_cr; pr_ts := Some 100%Z; pr_state := Some {| nrp_regkey := 1; nrp_acc := 0; nrp_valid := true |}; pr_attrs := [("a1", true)]; pr_preds := [] |};
+                                   {| pr_cred := s_c2; pr_ts := None; pr_state := None; pr_attrs := [("a2", true)]; pr_preds := [] |}];
+                        pc_self := [] |}.
+Lemma c04_unfixed_search_refuted :
+  honest_w3c cfg_no_search pcfg_fixed s_case = true /\ flow_w3c cfg_no_search pcfg_fixed s_case = Some Err.
+Proof. split; vm_compute; reflexivity. Qed.
+Example c04_fixed_search_on_witness :
+  honest_w3c cfg_fixed pcfg_fixed s_case = true /\ flow_w3c cfg_fixed pcfg_fixed s_case = Some Accept.
+Proof. split; vm_compute; reflexivity. Qed.
